@@ -61,6 +61,20 @@ var loopShapes = []loopShape{
 	{"finite-loop", `var s=0; for(var i=0;i<2000;i++){ s+=i; } return {s: s};`, false, 64},
 	{"finite-rec", `function r(n){ return n<=0 ? 0 : 1 + r(n-1); } return {r: r(300)};`, false, 64},
 	{"finite-trivial", `return _.bindings;`, false, 64},
+	// finite scripts that end with an error of their own (not an interruption): the watcher must go away all the same
+	{"finite-throw", `throw "boom";`, false, 64},
+	{"finite-referr", `return nosuch.x;`, false, 64},
+	{"finite-badret", `return 42;`, false, 64},
+	{"finite-emitbad", `_.out(function(){}); return _.bindings;`, false, 64},
+}
+
+// endsWithOwnError: the script ends by itself with an error; for the protocol that is "finished"
+func (sh loopShape) endsWithOwnError() bool {
+	switch sh.Name {
+	case "finite-throw", "finite-referr", "finite-badret", "finite-emitbad":
+		return true
+	}
+	return false
 }
 
 // deadline classes in ms; -1 = the context is already over; 0 = never ends
@@ -177,6 +191,8 @@ func runBatch(sh loopShape, deadline int, explicit bool, conc, route int) *tBatc
 				s.outcome = "done"
 			case errors.Is(err, ecmascript.Interrupted):
 				s.outcome = "interrupted"
+			case sh.endsWithOwnError():
+				s.outcome = "done"
 			default:
 				s.outcome = "other"
 			}
